@@ -156,7 +156,17 @@ def run_case(case):
                     os.unlink(b.ppaths(l)[rng.choice(usedsplits)])
                 else:
                     scen.wipe_disk(b, rng.choice(b.disks))
-                rf = b.cmd("fix", *bargs)
+                # the room available when the lost split is recreated need not be what it was when the split filled up
+                # (a larger or no limit = more free space on that disk now): the recorded sizes must still rule
+                fargs = list(bargs)
+                if rng.random() < 0.5 and "--test-parity-limit" in fargs:
+                    i_ = fargs.index("--test-parity-limit")
+                    if rng.random() < 0.3:
+                        del fargs[i_:i_ + 2]
+                    else:
+                        fargs[i_ + 1] = str(int(fargs[i_ + 1]) * rng.choice([2, 3, 10]) + rng.choice([0, 1, 511]))
+                    res["counters"]["fix_with_other_limit"] = res["counters"].get("fix_with_other_limit", 0) + 1
+                rf = b.cmd("fix", *fargs)
                 if rf.rc != 0:
                     V.append(("split-fix-fails", "%s: after losing a %s, fix rc=%s %s" % (label, what, rf.rc, rf.err[-250:].decode("latin-1")), rep))
                 else:
